@@ -225,6 +225,7 @@ func cmdMutants(args []string) int {
 	repo := fs.String("repo", "/repo", "repository root")
 	only := fs.String("only", "", "substring of the mutant name")
 	verif := fs.String("verif", "/verif", "verif root")
+	gaps := fs.Bool("gaps", false, "run the reported, not yet closed gaps instead of the witness mutants")
 	fs.Parse(args)
 	spec.MutantKnownPath = *verif + "/known_findings.json"
 	rc := 0
@@ -234,7 +235,11 @@ func cmdMutants(args []string) int {
 			fmt.Fprintf(os.Stderr, "unknown property %s\n", id)
 			return 2
 		}
-		for _, m := range spec.RunMutants(s, *repo, loadFor, *only) {
+		run := spec.RunMutants
+		if *gaps {
+			run = spec.RunGaps
+		}
+		for _, m := range run(s, *repo, loadFor, *only) {
 			fmt.Printf("%-8s %-9s %-50s expect=%s by=%v %s\n", id, m.Status, m.Name, m.Expect, m.KilledBy, m.Detail)
 			if m.Status != "killed" {
 				rc = 1
